@@ -400,7 +400,9 @@ theorem pollIndex_upd (d : Deny) (s : Store) (acct now : Nat) (incl : Bool) (add
       simp only
       split
       · exact u
-      · exact u.trans (upd_of_eq now _ _ rfl rfl rfl rfl)
+      · split
+        · exact u
+        · exact u.trans (upd_of_eq now _ _ rfl rfl rfl rfl)
 
 /-! ## what one request may do to the objects that existed before it -/
 
@@ -685,6 +687,8 @@ theorem finalize_old (d : Deny) (s : Store) (acct o now : Nat) (keyOk : Nat) (cs
           rename_i hkey
           split
           · exact ou
+          split
+          · exact ou
           rename_i hcsr
           split
           · exact ou
@@ -837,19 +841,37 @@ theorem old_of_grow_upd {d : Deny} {op : Op} {s s2 s3 : Store} (g : Grow s s2) (
     obtain ⟨o', h', j⟩ := u.order i o (get_of_grow_order g h)
     exact ⟨o', h', ordStep_of_just j⟩
 
-theorem newOrder_grow (d : Deny) (s : Store) (acct now : Nat) (nch : List (Nat × Bool)) :
-    ∃ s2, Grow s s2 ∧ Upd now s2 (newOrder d s acct now nch).1 := by
+theorem addChals_grow (s : Store) (acct : Nat) (ex : Option (Nat × Bool)) : Grow s (addChals s acct ex) := by
+  cases ex with
+  | none => exact Grow.refl s
+  | some p =>
+    obtain ⟨m, att⟩ := p
+    refine ⟨⟨_, rfl, ?_⟩, ⟨[], by simp [addChals]⟩, ⟨[], by simp [addChals]⟩, rfl⟩
+    intro c hc
+    simp [List.mem_replicate] at hc
+    rw [hc.2]
+
+theorem newOrder_grow (d : Deny) (s : Store) (acct now : Nat) (nch : List (Nat × Bool)) (wr : Bool) :
+    ∃ s2, Grow s s2 ∧ Upd now s2 (newOrder d s acct now nch wr).1 := by
   unfold newOrder
   split
   · exact ⟨s, Grow.refl s, Upd.refl _ _⟩
+  simp only
+  cases hf : createFault d nch with
+  | some pe =>
+    obtain ⟨pre, extra⟩ := pe
+    exact ⟨_, (createAuthzs_grow acct (now + lifetime) pre s).trans (addChals_grow _ acct extra), Upd.refl _ _⟩
+  | none =>
   simp only
   have g1 := createAuthzs_grow acct (now + lifetime) nch s
   cases hc : createAuthzs s acct (now + lifetime) nch with
   | mk s1 azs =>
     rw [hc] at g1
     simp only
+    split
+    · exact ⟨s1, g1, pollLoop_upd d now false _ s1⟩
     let s2 : Store := { s1 with orders := s1.orders ++
-      [({ acct := acct, status := .pending, expires := now + lifetime, authzs := azs, cert := none, attested := nch.any (·.2) } : Order)] }
+      [({ acct := acct, status := .pending, expires := now + lifetime, authzs := azs, cert := none, attested := nch.any (·.2), wire := wr } : Order)] }
     have g2 : Grow s1 s2 := ⟨⟨[], by simp [s2]⟩, ⟨[], by simp [s2]⟩, ⟨_, rfl, by intro o ho; simp at ho; rw [ho]⟩, rfl⟩
     have u := pollIndex_upd d s2 acct now false [s1.orders.length]
     refine ⟨s2, g1.trans g2, ?_⟩
@@ -927,9 +949,9 @@ theorem wire_old (d : Deny) (s : Store) (acct c now : Nat) (dpop : Bool) (out : 
 
 theorem step_old (d : Deny) (s : Store) (op : Op) : Old d op s (step d s op).1 := by
   cases op with
-  | newOrder acct now nch =>
-    obtain ⟨s2, g, u⟩ := newOrder_grow d s acct now nch
-    exact old_of_grow_upd (op := .newOrder acct now nch) g u
+  | newOrder acct now nch wr =>
+    obtain ⟨s2, g, u⟩ := newOrder_grow d s acct now nch wr
+    exact old_of_grow_upd (op := .newOrder acct now nch wr) g u
   | respond acct c now out => exact respond_old d s acct c now out
   | wire acct c now dp out => exact wire_old d s acct c now dp out
   | attest acct c az now out => exact attest_old d s acct c az now out
@@ -980,9 +1002,9 @@ theorem finalize_len (d : Deny) (s : Store) (acct o now : Nat) (k : Nat) (c g u 
         · exact hu
         · exact hu
 
-theorem step_len (d : Deny) (s : Store) (op : Op) (h : ∀ acct now nch, op ≠ .newOrder acct now nch) : SameLen s (step d s op).1 := by
+theorem step_len (d : Deny) (s : Store) (op : Op) (h : ∀ acct now nch wr, op ≠ .newOrder acct now nch wr) : SameLen s (step d s op).1 := by
   cases op with
-  | newOrder acct now nch => exact absurd rfl (h acct now nch)
+  | newOrder acct now nch wr => exact absurd rfl (h acct now nch wr)
   | respond acct c now out => exact respond_len d s acct c out
   | wire acct c now dp out =>
     exact (respond_len d s acct c out).trans (sameLen_of_upd (wire_split d s acct c now dp out))
@@ -1106,11 +1128,11 @@ theorem inv_grow {s s' : Store} (I : Inv s) (g : Grow s s') : Inv s' := by
       rw [this] at hst; rcases hst with x | x <;> cases x
 
 theorem inv_step (d : Deny) (s : Store) (op : Op) (I : Inv s) : Inv (step d s op).1 := by
-  by_cases h : ∃ acct now nch, op = .newOrder acct now nch
-  · obtain ⟨acct, now, nch, rfl⟩ := h
-    obtain ⟨s2, g, u⟩ := newOrder_grow d s acct now nch
-    exact inv_old (d := d) (op := .newOrder acct now nch) (inv_grow I g) (old_of_upd u) (sameLen_of_upd u)
-  · exact inv_old I (step_old d s op) (step_len d s op (fun a n k e => h ⟨a, n, k, e⟩))
+  by_cases h : ∃ acct now nch wr, op = .newOrder acct now nch wr
+  · obtain ⟨acct, now, nch, wr, rfl⟩ := h
+    obtain ⟨s2, g, u⟩ := newOrder_grow d s acct now nch wr
+    exact inv_old (d := d) (op := .newOrder acct now nch wr) (inv_grow I g) (old_of_upd u) (sameLen_of_upd u)
+  · exact inv_old I (step_old d s op) (step_len d s op (fun a n k w e => h ⟨a, n, k, w, e⟩))
 
 theorem run_snoc (h : List Req) (r : Req) : run (h ++ [r]) = (step r.1 (run h) r.2).1 := by
   simp [run, List.foldl_append]
@@ -1201,11 +1223,11 @@ theorem certInv_grow {s s' : Store} (C : CertInv s) (g : Grow s s') : CertInv s'
       intro c hc; have := C.ref c hc; omega
 
 theorem certInv_step (d : Deny) (s : Store) (op : Op) (ff : Req.finalWriteFails (d, op) = false) (C : CertInv s) : CertInv (step d s op).1 := by
-  by_cases h : ∃ acct now nch, op = .newOrder acct now nch
-  · obtain ⟨acct, now, nch, rfl⟩ := h
-    obtain ⟨s2, g, u⟩ := newOrder_grow d s acct now nch
-    exact certInv_old (d := d) (op := .newOrder acct now nch) (certInv_grow C g) (old_of_upd u) (sameLen_of_upd u) rfl
-  · exact certInv_old C (step_old d s op) (step_len d s op (fun a n k e => h ⟨a, n, k, e⟩)) ff
+  by_cases h : ∃ acct now nch wr, op = .newOrder acct now nch wr
+  · obtain ⟨acct, now, nch, wr, rfl⟩ := h
+    obtain ⟨s2, g, u⟩ := newOrder_grow d s acct now nch wr
+    exact certInv_old (d := d) (op := .newOrder acct now nch wr) (certInv_grow C g) (old_of_upd u) (sameLen_of_upd u) rfl
+  · exact certInv_old C (step_old d s op) (step_len d s op (fun a n k w e => h ⟨a, n, k, w, e⟩)) ff
 
 /-- the certificate invariant survives every storage fault except a failing last write of a
     finalization -/
@@ -1389,6 +1411,161 @@ theorem order_valid_cause (d : Deny) (s : Store) (op : Op) (i : Nat) (o o' : Ord
   · rw [hv] at q; cases q
   · exact ⟨a, b, c, e, d⟩
 
+/-! ### the Wire token store and the finalization of Wire orders -/
+
+theorem authzUpdate_tokens (d : Deny) (s : Store) (a now : Nat) : (authzUpdate d s a now).1.tokens = s.tokens := by
+  unfold authzUpdate
+  repeat' split
+  all_goals first | rfl | simp [setAuthz]
+
+theorem authzLoop_tokens (d : Deny) (now : Nat) : ∀ (as : List Nat) (s : Store), (authzLoop d s now as).1.tokens = s.tokens := by
+  intro as
+  induction as with
+  | nil => intro s; rfl
+  | cons a as ih =>
+    intro s
+    unfold authzLoop
+    have t1 := authzUpdate_tokens d s a now
+    cases h1 : authzUpdate d s a now with
+    | mk s1 r =>
+      rw [h1] at t1
+      cases r with
+      | none => exact t1
+      | some st =>
+        simp only
+        have t2 := ih s1
+        cases h2 : authzLoop d s1 now as with
+        | mk s2 r' =>
+          rw [h2] at t2
+          cases r' <;> exact t2.trans t1
+
+theorem orderUpdate_tokens (d : Deny) (s : Store) (o now : Nat) : (orderUpdate d s o now).1.tokens = s.tokens := by
+  unfold orderUpdate
+  cases h : s.orders[o]? with
+  | none => rfl
+  | some ord =>
+    simp only
+    cases ord.status with
+    | invalid => rfl
+    | valid => rfl
+    | ready => simp only; repeat' split
+               all_goals first | rfl | simp [setOrder]
+    | pending =>
+      simp only
+      split
+      · split
+        · rfl
+        · simp [setOrder]
+      · have t := authzLoop_tokens d now ord.authzs s
+        cases hl : authzLoop d s now ord.authzs with
+        | mk s1 r =>
+          rw [hl] at t
+          cases r with
+          | none => exact t
+          | some sts =>
+            simp only
+            repeat' split
+            all_goals first | exact t | simpa [setOrder] using t
+
+/-- **wire_order_valid_tokens**: a Wire order turns valid only when an OIDC token and a DPoP token
+    are filed under this very order (the tokens `Finalize` puts into the certificate template).
+    Which challenges' tokens they are is observation W1: `wire` files a token under the account's
+    last listed order, not under the order of the challenge that was answered. -/
+theorem wire_order_valid_tokens (d : Deny) (s : Store) (op : Op) (i : Nat) (o o' : Order)
+    (h : s.orders[i]? = some o) (h' : (step d s op).1.orders[i]? = some o')
+    (hn : o.status ≠ .valid) (hv : o'.status = .valid) (hw : o.wire = true) :
+    s.tokens.contains (i, true) = true ∧ s.tokens.contains (i, false) = true := by
+  obtain ⟨⟨k, hop, _⟩, _, _, hc, _⟩ := order_valid_cause d s op i o o' h h' hn hv
+  have hne : ∀ (l : List Cert) (x : Cert), l ≠ l ++ [x] := by
+    intro l x e
+    have := congrArg List.length e
+    simp at this
+  cases op with
+  | finalize a oi n k' c g u =>
+    injection hop with e1 e2 e3 e4 e5 e6 e7
+    subst e2
+    simp only [step] at hc
+    unfold finalize at hc
+    rw [h] at hc
+    simp only at hc
+    split at hc
+    · exact absurd hc (hne _ _)
+    have u := (orderUpdate_upd d s oi n).1
+    have t := orderUpdate_tokens d s oi n
+    cases hu : orderUpdate d s oi n with
+    | mk s1 r =>
+      rw [hu] at hc u t
+      have hcs : s1.certs ≠ s.certs ++ [⟨oi, o.acct⟩] := by rw [u.certs]; exact hne _ _
+      cases r with
+      | none => exact absurd hc hcs
+      | some st =>
+        cases st with
+        | pending => exact absurd hc hcs
+        | valid => exact absurd hc hcs
+        | invalid => exact absurd hc hcs
+        | ready =>
+          simp only at hc
+          split at hc
+          · exact absurd hc hcs
+          split at hc
+          · exact absurd hc hcs
+          rename_i hgate
+          simp only [hw, Bool.true_and, Bool.not_eq_true, Bool.not_eq_false'] at hgate
+          dsimp only at t
+          rw [t] at hgate
+          simpa using hgate
+  | _ => cases hop
+
+
+/-- the honest Wire run: both challenges answered, both tokens under the order, finalize -/
+example :
+    let h : List Req := [(.none, .newOrder 0 0 [(1, false), (1, false)] true), (.none, .wire 0 0 1 false .success),
+      (.none, .wire 0 1 2 true .success)]
+    (run h).orders[0]?.map (·.status) = some .ready ∧ (run h).tokens = [(0, true), (0, false)] ∧
+    (step .none (run h) (.finalize 0 0 3 0 true true false)).2 = .ok .valid := by decide
+
+/-- **wire_tokens_misfiled** (observation W1 in the model, reproduced on the real code): with two
+    open Wire orders of one account the tokens of order 0's challenges are filed under order 1;
+    order 1's own OIDC response is answered 500 (its challenge is valid nevertheless), order 0 is
+    ready and can never be finalized, order 1 is finalized with the tokens of order 0's challenges
+    once its own challenges are valid. -/
+theorem wire_tokens_misfiled :
+    let w : List (Nat × Bool) := [(1, false), (1, false)]
+    let h : List Req := [(.none, .newOrder 0 0 w true), (.none, .newOrder 0 1 w true),
+      (.none, .wire 0 0 2 false .success), (.none, .wire 0 1 3 true .success)]
+    (run h).orders.map (·.status) = [.ready, .pending] ∧ (run h).tokens = [(1, true), (1, false)] ∧
+    (step .none (run h) (.finalize 0 0 4 0 true true false)).2 = .malformed ∧
+    (step .none (run h) (.wire 0 2 4 false .success)).2 = .ise ∧
+    (step .none (run h) (.wire 0 2 4 false .success)).1.chals.map (·.status) = [.valid, .valid, .valid, .pending] ∧
+    let h2 := h ++ [(.none, .wire 0 2 4 false .success), (.none, .wire 0 3 5 true .success)]
+    (step .none (run h2) (.finalize 0 1 6 0 true true false)).2 = .ok .valid := by decide
+
+/-- faults inside new-order and inside a Wire response (all covered by `step_old`, `inv_single_fault`,
+    `terminal_absorbing`, which quantify over every `Deny`): a failing create write leaves objects no
+    order refers to and nothing else; a failing index write takes the new order away again but not
+    the status updates of the account's other orders made on the way; a failing token write leaves
+    the Wire challenge valid. -/
+theorem new_order_faults :
+    let two : List (Nat × Bool) := [(3, false), (2, false)]
+    -- the authorization of the first identifier cannot be stored: its three challenges stay
+    ((step (.create 3) {} (.newOrder 0 0 two false)).1.chals.length = 3 ∧
+     (step (.create 3) {} (.newOrder 0 0 two false)).1.authzs.length = 0 ∧
+     (step (.create 3) {} (.newOrder 0 0 two false)).2 = .ise) ∧
+    -- the order itself cannot be stored: both authorizations stay, no order, no index entry
+    ((step (.create 7) {} (.newOrder 0 0 two false)).1.authzs.length = 2 ∧
+     (step (.create 7) {} (.newOrder 0 0 two false)).1.orders = [] ∧
+     (step (.create 8) {} (.newOrder 0 0 two false)).2 = .created 0) ∧
+    -- index write fails: an older order of the account is still updated (here: expired), the new one is gone
+    (let h : List Req := [(.none, .newOrder 0 0 [(1, false)] false)]
+     (step .index (run h) (.newOrder 0 90000 [(1, false)] false)).2 = .ise ∧
+     (step .index (run h) (.newOrder 0 90000 [(1, false)] false)).1.orders.map (·.status) = [.invalid] ∧
+     (step .index (run h) (.newOrder 0 90000 [(1, false)] false)).1.authzs.length = 2) ∧
+    -- token write fails: 500, the challenge is valid and stays valid
+    (let h : List Req := [(.none, .newOrder 0 0 [(1, false), (1, false)] true)]
+     (step .token (run h) (.wire 0 0 1 false .success)).2 = .ise ∧
+     (step .token (run h) (.wire 0 0 1 false .success)).1.chals.map (·.status) = [.valid, .pending] ∧
+     (step .token (run h) (.wire 0 0 1 false .success)).1.tokens = []) := by decide
+
 /-- **cert_only_in_transition**: unless the last write of a finalization fails, a request leaves
     the certificate table unchanged, or adds exactly one certificate, for an order that turns
     valid in this very request. (Every other storage fault is covered.) -/
@@ -1432,21 +1609,21 @@ theorem cert_iff_transition_faultFree (h : List Req) (ff : h.all Req.faultFree =
     certificate for the same order. Both ways of losing that write are shown. -/
 theorem fault_double_certificate :
     (∃ h : List Req, certsOf (run h) 0 = 2 ∧ h.all (fun r => !r.finalWriteFails) = false) ∧
-    (certsOf (run [(.none, .newOrder 0 0 [(1, false)]), (.none, .respond 0 0 1 .success), (.none, .getOrder 0 0 2),
+    (certsOf (run [(.none, .newOrder 0 0 [(1, false)] false), (.none, .respond 0 0 1 .success), (.none, .getOrder 0 0 2),
         (.order 0, .finalize 0 0 3 1 true true false), (.none, .finalize 0 0 4 1 true true false)]) 0 = 2) :=
-  ⟨⟨[(.none, .newOrder 0 0 [(1, false)]), (.none, .respond 0 0 1 .success), (.none, .finalize 0 0 2 1 true true true),
+  ⟨⟨[(.none, .newOrder 0 0 [(1, false)] false), (.none, .respond 0 0 1 .success), (.none, .finalize 0 0 2 1 true true true),
     (.none, .finalize 0 0 3 1 true true false)], by decide, by decide⟩, by decide⟩
 
 /-- every order, authorization and challenge starts pending: the empty history has no objects and a
     request only appends pending ones (`Grow`) -/
-theorem new_objects_pending (d : Deny) (s : Store) (acct now : Nat) (nch : List (Nat × Bool)) :
-    ∃ s2, Grow s s2 ∧ Upd now s2 (step d s (.newOrder acct now nch)).1 := newOrder_grow d s acct now nch
+theorem new_objects_pending (d : Deny) (s : Store) (acct now : Nat) (nch : List (Nat × Bool)) (wr : Bool) :
+    ∃ s2, Grow s s2 ∧ Upd now s2 (step d s (.newOrder acct now nch wr)).1 := newOrder_grow d s acct now nch wr
 
 /-! ### the hypotheses are met by ordinary histories -/
 
 /-- a full happy path: two identifiers, both authorizations validated, order ready, finalized -/
 def happy : List Req :=
-  [.newOrder 0 100 [(3, false), (2, false)], .respond 0 1 101 .success, .respond 0 3 102 .success,
+  [.newOrder 0 100 [(3, false), (2, false)] false, .respond 0 1 101 .success, .respond 0 3 102 .success,
    .getOrder 0 0 103, .finalize 0 0 104 1 true true false].map (fun op => (Deny.none, op))
 
 example : (run happy).orders[0]?.map (·.status) = some .valid ∧ certsOf (run happy) 0 = 1 := by decide
@@ -1454,14 +1631,14 @@ example : (run (happy.take 4)).orders[0]?.map (·.status) = some .ready := by de
 example : (run (happy.take 3)).authzs[1]?.map (·.status) = some .pending ∧
     (run (happy.take 4)).authzs[1]?.map (·.status) = some .valid := by decide
 /-- exactly at the expiry the order is still usable, one second later it is invalid -/
-example : (run ([.newOrder 0 0 [(1, false)], .respond 0 0 5 .success, .getOrder 0 0 lifetime].map (fun op => (Deny.none, op)))).orders[0]?.map (·.status) = some .ready := by decide
-example : (run ([.newOrder 0 0 [(1, false)], .respond 0 0 5 .success, .getOrder 0 0 (lifetime + 1)].map (fun op => (Deny.none, op)))).orders[0]?.map (·.status) = some .invalid := by decide
+example : (run ([.newOrder 0 0 [(1, false)] false, .respond 0 0 5 .success, .getOrder 0 0 lifetime].map (fun op => (Deny.none, op)))).orders[0]?.map (·.status) = some .ready := by decide
+example : (run ([.newOrder 0 0 [(1, false)] false, .respond 0 0 5 .success, .getOrder 0 0 (lifetime + 1)].map (fun op => (Deny.none, op)))).orders[0]?.map (·.status) = some .invalid := by decide
 /-- a second finalize of a valid order signs nothing -/
 example : certsOf (run (happy ++ [(.none, .finalize 0 0 105 1 true true false)])) 0 = 1 := by decide
 /-- a failed authorization write during an order evaluation: the order is not ready, the request
     fails, nothing is stored; the next evaluation succeeds -/
-example : (run [(.none, .newOrder 0 0 [(1, false)]), (.none, .respond 0 0 1 .success), (.authz 0, .getOrder 0 0 2)]).orders[0]?.map (·.status) = some .pending ∧
-    (run [(.none, .newOrder 0 0 [(1, false)]), (.none, .respond 0 0 1 .success), (.authz 0, .getOrder 0 0 2), (.none, .getOrder 0 0 3)]).orders[0]?.map (·.status) = some .ready := by decide
+example : (run [(.none, .newOrder 0 0 [(1, false)] false), (.none, .respond 0 0 1 .success), (.authz 0, .getOrder 0 0 2)]).orders[0]?.map (·.status) = some .pending ∧
+    (run [(.none, .newOrder 0 0 [(1, false)] false), (.none, .respond 0 0 1 .success), (.authz 0, .getOrder 0 0 2), (.none, .getOrder 0 0 3)]).orders[0]?.map (·.status) = some .ready := by decide
 
 /-! ## ownership (used by C13: "backed by a valid authorization of the same account") -/
 
@@ -1560,13 +1737,34 @@ theorem createAuthzs_own (acct exp : Nat) : ∀ (ns : List (Nat × Bool)) (s : S
     · exact hall a ha
 
 
+theorem addChals_own (s : Store) (acct : Nat) (ex : Option (Nat × Bool)) (W : Own s) : Own (addChals s acct ex) := by
+  cases ex with
+  | none => exact W
+  | some p =>
+    obtain ⟨m, att⟩ := p
+    constructor
+    · intro i o h a ha
+      exact W.ord i o h a ha
+    · intro a az h c hc
+      obtain ⟨ch, hch, e⟩ := W.az a az h c hc
+      refine ⟨ch, ?_, e⟩
+      simp only [addChals]
+      rw [List.getElem?_append_left (lt_of_getElem? hch)]
+      exact hch
+
 theorem own_step (d : Deny) (s : Store) (op : Op) (W : Own s) : Own (step d s op).1 := by
-  by_cases h : ∃ acct now nch, op = .newOrder acct now nch
-  · obtain ⟨acct, now, nch, rfl⟩ := h
+  by_cases h : ∃ acct now nch wr, op = .newOrder acct now nch wr
+  · obtain ⟨acct, now, nch, wr, rfl⟩ := h
     simp only [step]
     unfold newOrder
     split
     · exact W
+    simp only
+    cases hf : createFault d nch with
+    | some pe =>
+      obtain ⟨pre, extra⟩ := pe
+      exact addChals_own _ acct extra (createAuthzs_own acct (now + lifetime) pre s W).1
+    | none =>
     simp only
     obtain ⟨W1, ho1, hall⟩ := createAuthzs_own acct (now + lifetime) nch s W
     have g1 := createAuthzs_grow acct (now + lifetime) nch s
@@ -1574,8 +1772,11 @@ theorem own_step (d : Deny) (s : Store) (op : Op) (W : Own s) : Own (step d s op
     | mk s1 azs =>
       rw [hc] at W1 ho1 hall g1
       dsimp only at W1 ho1 hall g1 ⊢
+      split
+      · have u := pollLoop_upd d now false ((indexOf s1 acct).getD []) s1
+        exact own_old (d := d) (op := .newOrder acct now nch wr) W1 (old_of_upd u) (sameLen_of_upd u)
       have W2 : Own { s1 with orders := s1.orders ++
-          [({ acct := acct, status := .pending, expires := now + lifetime, authzs := azs, cert := none, attested := nch.any (·.2) } : Order)] } := by
+          [({ acct := acct, status := .pending, expires := now + lifetime, authzs := azs, cert := none, attested := nch.any (·.2), wire := wr } : Order)] } := by
         constructor
         · intro i o h a ha
           dsimp only at h
@@ -1583,23 +1784,23 @@ theorem own_step (d : Deny) (s : Store) (op : Op) (W : Own s) : Own (step d s op
           · rw [List.getElem?_append_left hl] at h
             exact W1.ord i o h a ha
           · rw [List.getElem?_append_right hl] at h
-            have : o = ({ acct := acct, status := .pending, expires := now + lifetime, authzs := azs, cert := none, attested := nch.any (·.2) } : Order) := by
+            have : o = ({ acct := acct, status := .pending, expires := now + lifetime, authzs := azs, cert := none, attested := nch.any (·.2), wire := wr } : Order) := by
               have := List.mem_of_getElem? h; simpa using this
             subst this
             exact hall a ha
         · exact W1.az
       have u := pollIndex_upd d { s1 with orders := s1.orders ++
-          [({ acct := acct, status := .pending, expires := now + lifetime, authzs := azs, cert := none, attested := nch.any (·.2) } : Order)] }
+          [({ acct := acct, status := .pending, expires := now + lifetime, authzs := azs, cert := none, attested := nch.any (·.2), wire := wr } : Order)] }
         acct now false [s1.orders.length]
       cases hp : pollIndex d { s1 with orders := s1.orders ++
-          [({ acct := acct, status := .pending, expires := now + lifetime, authzs := azs, cert := none, attested := nch.any (·.2) } : Order)] }
+          [({ acct := acct, status := .pending, expires := now + lifetime, authzs := azs, cert := none, attested := nch.any (·.2), wire := wr } : Order)] }
         acct now false [s1.orders.length] with
       | mk s3 r =>
         rw [hp] at u
         dsimp only at u
-        have : Own s3 := own_old (d := d) (op := .newOrder acct now nch) W2 (old_of_upd u) (sameLen_of_upd u)
+        have : Own s3 := own_old (d := d) (op := .newOrder acct now nch wr) W2 (old_of_upd u) (sameLen_of_upd u)
         cases r <;> exact this
-  · exact own_old W (step_old d s op) (step_len d s op (fun a n k e => h ⟨a, n, k, e⟩))
+  · exact own_old W (step_old d s op) (step_len d s op (fun a n k w e => h ⟨a, n, k, w, e⟩))
 
 /-- **authz_owner**: after every history, the authorizations of an order exist and belong to the
     order's account, and the challenges of an authorization exist and belong to its account. -/
@@ -1705,8 +1906,8 @@ theorem step_fp (d : Deny) (s : Store) (op : Op) (i : Nat) (az : Authz) (h : s.a
     obtain ⟨az', h', e⟩ := u.fp i az h
     exact ⟨az', h', .inl e⟩
   cases op with
-  | newOrder acct now nch =>
-    obtain ⟨s2, g, u⟩ := newOrder_grow d s acct now nch
+  | newOrder acct now nch wr =>
+    obtain ⟨s2, g, u⟩ := newOrder_grow d s acct now nch wr
     obtain ⟨az', h', e⟩ := u.fp i az (get_of_grow_authz g h)
     exact ⟨az', h', .inl e⟩
   | respond acct c now out =>
@@ -1823,7 +2024,7 @@ theorem attested_key (d : Deny) (s : Store) (op : Op) (i : Nat) (o o' : Order)
     order's authorization. Order 0 (its challenge was answered with an attestation of key 1) is
     refused with key 1 and finalized with key 2, the key attested for order 1's identifier. -/
 theorem attested_key_swap :
-    let h : List Req := [(.none, .newOrder 0 0 [(1, true)]), (.none, .newOrder 0 1 [(1, true)]),
+    let h : List Req := [(.none, .newOrder 0 0 [(1, true)] false), (.none, .newOrder 0 1 [(1, true)] false),
       (.none, .attest 0 0 1 2 (.successKey 1)), (.none, .attest 0 1 0 3 (.successKey 2)),
       (.none, .getOrder 0 0 4)]
     (run h).authzs.map (·.fp) = [some 2, some 1] ∧
@@ -1837,8 +2038,8 @@ theorem attested_key_swap :
     through the URL of order 0's (valid) authorization, replaces the recorded key: order 0 is now
     refused with the key that was attested for it and finalized with key 2. -/
 theorem fp_overwrite_valid :
-    let h : List Req := [(.none, .newOrder 0 0 [(1, true)]), (.none, .attest 0 0 0 1 (.successKey 1)),
-      (.none, .getOrder 0 0 2), (.none, .newOrder 0 3 [(1, true)])]
+    let h : List Req := [(.none, .newOrder 0 0 [(1, true)] false), (.none, .attest 0 0 0 1 (.successKey 1)),
+      (.none, .getOrder 0 0 2), (.none, .newOrder 0 3 [(1, true)] false)]
     (run h).authzs.map (fun a => (a.status, a.fp)) = [(.valid, some 1), (.pending, none)] ∧
     (run h).orders[0]?.map (·.status) = some .ready ∧
     let h' := h ++ [(.none, .attest 0 1 0 4 (.successKey 2))]
@@ -1851,10 +2052,10 @@ theorem fp_overwrite_valid :
     (365cae8); with the fingerprint on none of the order's authorizations the order cannot be
     finalized with any key (4f1731b) -/
 example :
-    let h : List Req := [(.none, .newOrder 0 0 [(1, true)]), (.none, .newOrder 1 0 [(3, false)])]
+    let h : List Req := [(.none, .newOrder 0 0 [(1, true)] false), (.none, .newOrder 1 0 [(3, false)] false)]
     (step .none (run h) (.attest 0 0 1 1 .success)).2 = .unauthorized := by decide
 example :
-    let h : List Req := [(.none, .newOrder 0 0 [(1, true)]), (.none, .newOrder 0 0 [(3, false)]),
+    let h : List Req := [(.none, .newOrder 0 0 [(1, true)] false), (.none, .newOrder 0 0 [(3, false)] false),
       (.none, .attest 0 0 1 1 .success), (.none, .getOrder 0 0 2)]
     (run h).orders[0]?.map (·.status) = some .ready ∧
     (step .none (run h) (.finalize 0 0 3 0 true true false)).2 = .unauthorized ∧
@@ -1862,7 +2063,7 @@ example :
 
 /-- the honest run: attestation through the order's own authorization, then only the attested key -/
 example :
-    let h : List Req := [(.none, .newOrder 0 0 [(1, true)]), (.none, .attest 0 0 0 1 (.successKey 1)), (.none, .getOrder 0 0 2)]
+    let h : List Req := [(.none, .newOrder 0 0 [(1, true)] false), (.none, .attest 0 0 0 1 (.successKey 1)), (.none, .getOrder 0 0 2)]
     (step .none (run h) (.finalize 0 0 3 0 true true false)).2 = .unauthorized ∧
     (step .none (run h) (.finalize 0 0 3 1 true true false)).2 = .ok .valid := by decide
 
@@ -1956,12 +2157,12 @@ theorem deactivated_inert_history (h1 h2 : List AReq) (i : Nat) (hd : (arun h1).
 /-- the hypothesis is reachable: an account with a pending order deactivates itself; its later
     requests (a poll, a new order, a second deactivation) change nothing, the other account goes on -/
 example :
-    let h1 : List AReq := [.newAccount, .newAccount, .req .none (.newOrder 0 0 [(1, false)]),
+    let h1 : List AReq := [.newAccount, .newAccount, .req .none (.newOrder 0 0 [(1, false)] false),
       .req .none (.respond 0 0 0 .success), .deactivate 0]
     (arun h1).accts = [false, true] ∧
-    arun (h1 ++ [.req .none (.getOrder 0 0 1), .req .none (.newOrder 0 2 [(1, false)]), .deactivate 0,
-                 .req .none (.newOrder 1 3 [(1, false)])]) =
-      arun (h1 ++ [.req .none (.newOrder 1 3 [(1, false)])]) ∧
+    arun (h1 ++ [.req .none (.getOrder 0 0 1), .req .none (.newOrder 0 2 [(1, false)] false), .deactivate 0,
+                 .req .none (.newOrder 1 3 [(1, false)] false)]) =
+      arun (h1 ++ [.req .none (.newOrder 1 3 [(1, false)] false)]) ∧
     (arun h1).s.orders[0]?.map (·.status) = some .pending := by decide
 
 /-! ## source-derived table of status writes -/
@@ -1969,7 +2170,7 @@ example :
 /-- why `authz_valid_cause` has to look at the store after the request for Wire: one Wire response
     makes the challenge valid, the authorization valid and the order ready -/
 theorem wire_same_request :
-    let h : List Req := [(.none, .newOrder 0 0 [(1, false)]), (.none, .wire 0 0 1 false .success)]
+    let h : List Req := [(.none, .newOrder 0 0 [(1, false)] false), (.none, .wire 0 0 1 false .success)]
     (run h).chals[0]?.map (·.status) = some .valid ∧ (run h).authzs[0]?.map (·.status) = some .valid ∧
     (run h).orders[0]?.map (·.status) = some .ready ∧
     -- and a second response, whatever its verdict, changes nothing
